@@ -268,6 +268,15 @@ def rule_b_clear(ctx):
         pre = body.paths_avoiding([0], cleared, [c.loc.bb])
         post = _must_pass(body, [c.target], cleared, set()) if c.target is not None else None
         ok = not (pre is not None and post is not None)
+        refill = c.tname in (HBT + "clone_from", HBT + "clone_from_with_hasher")
+        if ok and refill and pre is not None:
+            # re-filling runs user code (T::clone): if that panics after the main table was overwritten but before the old table is
+            # dropped, the map is left with the new contents *and* its stale old table (duplicate keys, no headroom)
+            R.inst(fn=body.path, site=c.where(), op=c.tname, verdict="VIOLATION")
+            R.viol("%s:%s:late" % (body.path, c.tname), c.where(), "%s overwrites the main table with clones (user code that may panic) on a path (%s) where the "
+                   "destination's own old table has not been dropped yet: an interrupted clone_from would leave both in the map"
+                   % (c.tname, " -> ".join("bb%d" % x for x in pre)))
+            continue
         R.inst(fn=body.path, site=c.where(), op=c.tname, verdict="ok" if ok else "VIOLATION")
         if not ok:
             R.viol("%s:%s" % (body.path, c.tname), c.where(), "%s empties/overwrites the main table but a path (%s) never drops the old table: its elements stay in the map"
@@ -450,6 +459,17 @@ def _check_size_hint(ctx, R, adt, b, key):
     hints = [(bd, c) for bd in [b] + ctx.facts.closures_of(b) for c in ctx.calls(bd) if c.method == "size_hint" and not bd.is_cleanup(c.loc.bb)]
     main_sh = [c for bd, c in hints if bd is b and _side_of_receiver(ctx, b, c) == "IT_MAIN"]
     old_sh = [(bd, c) for bd, c in hints if _side_of_receiver(ctx, bd, c) == "IT_OLD"]
+    # the old side's hint taken through a combinator with the method itself as the function: self.old.as_ref().map(Iterator::size_hint)
+    for c in calls:
+        if c.name == OPT + "map" and len(c.args) == 2 and c.args[1]["k"] == "const" and (c.args[1].get("fn") or "").endswith("::size_hint"):
+            sd = b.source_def(c.args[0])
+            src_old = c.arg_path(0) is not None and ctx.role(b, c.arg_path(0)) == "IT_OLD"
+            if sd is not None and sd[1] == "call":
+                sc = ctx.call_at(b, sd[0].bb)
+                if sc.name in (OPT + "as_ref", OPT + "as_mut") and ctx.role(b, sc.arg_path(0)) == "IT_OLD":
+                    src_old = True
+            if src_old:
+                old_sh.append((b, c))
     if main_sh and old_sh:
         # (1) summed in this body
         if all(bd is b for bd, _ in old_sh):
@@ -594,6 +614,21 @@ def _variant_search(b, skip_edges, stop_blocks, goal):
     return None
 
 
+def _copies_of(b, local):
+    """locals that receive the whole value of `local` through plain copies / moves (an inlined helper's return slot, a rebinding)"""
+    out = {local}
+    grew = True
+    while grew:
+        grew = False
+        for loc, st in b.all_assigns():
+            rv = st["rv"]
+            if not st["place"]["proj"] and rv["k"] == "use" and rv["op"]["k"] in ("copy", "move") and not rv["op"]["place"]["proj"] \
+                    and rv["op"]["place"]["local"] in out and st["place"]["local"] not in out:
+                out.add(st["place"]["local"])
+                grew = True
+    return out
+
+
 def _check_owning_next(ctx, R, adt, b, key):
     """owning iterators: the main side is polled only after the old side was found absent or exhausted"""
     from rules_typestate import option_test_edges, N as N_, S as S_
@@ -621,8 +656,8 @@ def _check_owning_next(ctx, R, adt, b, key):
         return {}
     ok_edges = {e for e, v in _old_field_edges(ctx, b).items() if v == N_}
     for c in old_next:
-        dl = c.dest["local"]
-        res_edges = option_test_edges(ctx, b, lambda p, dl=dl: p.root == dl and not p.fields(), ignore_debug=False)
+        dls = _copies_of(b, c.dest["local"])
+        res_edges = option_test_edges(ctx, b, lambda p, dls=dls: p.root in dls and not p.fields(), ignore_debug=False)
         ok_edges |= {e for e, v in res_edges.items() if v == N_}
     map_some_edges = set()
     for c in old_maps:
@@ -642,8 +677,8 @@ def _check_owning_next(ctx, R, adt, b, key):
     # elements ends the iteration early
     some_edges = set()
     for c in old_next:
-        dl = c.dest["local"]
-        res_edges = option_test_edges(ctx, b, lambda p, dl=dl: p.root == dl and not p.fields(), ignore_debug=False)
+        dls = _copies_of(b, c.dest["local"])
+        res_edges = option_test_edges(ctx, b, lambda p, dls=dls: p.root in dls and not p.fields(), ignore_debug=False)
         some_edges |= {e for e, v in res_edges.items() if v == S_}
     some_edges |= map_some_edges
     main_bbs = {c.loc.bb for c in main_next}
